@@ -2,6 +2,7 @@ SPECIFICATION Spec
 CONSTANTS Versions = {1, 2}
   MaxSteps = 3
   ReAddOnRemove = FALSE
+  OnlyRotations = FALSE
   Serialized = FALSE
 INVARIANTS Converges
 CHECK_DEADLOCK FALSE
